@@ -863,7 +863,7 @@ Proof.
   - (* J6 *) destruct (Nat.eqb_spec (head s) (chead T)) as [E|E]; cbn [fst].
     + assert (NI : ~ In (S t) (recs s)) by (intros X; apply JT in X; destruct LT; congruence).
       eapply (vinv_frame s _ t); try reflexivity; try exact V; ssimp.
-      * subst T; reflexivity.
+ Show. all: fail.
       * tsimp. auto.
       * unfold quiet; tsimp; auto.
       * intros u r i n Hu. apply vscan_push; auto.
